@@ -88,6 +88,8 @@ func (c *cInst) Close() error {
 	return nil
 }
 
+type cFace1 interface{ Close() error }
+type cFace2 interface{ Close() error }
 type cScoped struct{ cInst }
 type cTransient struct{ cInst }
 type cPlain struct{ n int }
@@ -127,7 +129,7 @@ func runCCase(c *CCase) {
 			panic(err)
 		}
 	}
-	must(coll.AddScoped(func() *cScoped { w.gate(); return &cScoped{cInst{w.newID()}} }))
+	must(coll.AddScoped(func() *cScoped { w.gate(); return &cScoped{cInst{w.newID()}} }, godi.As[cFace1](), godi.As[cFace2]()))
 	must(coll.AddTransient(func() *cTransient { w.gate(); return &cTransient{cInst{w.newID()}} }))
 	needInit := false
 	for _, k := range c.Threads {
@@ -152,7 +154,7 @@ func runCCase(c *CCase) {
 	w.free = false
 	w.mu.Unlock()
 
-	tScoped := reflect.TypeOf((*cScoped)(nil))
+	tScoped := reflect.TypeOf((*cFace1)(nil)).Elem()
 	tTransient := reflect.TypeOf((*cTransient)(nil))
 	for _, k := range c.Threads {
 		w.threads = append(w.threads, &cThread{kind: k, goCh: make(chan struct{}), evCh: make(chan string, 1)})
@@ -585,6 +587,10 @@ func cycles(n int, failEvery int) CycleReport {
 	type probe struct{ sInst }
 	coll.AddScoped(func(s *sSingleton) *sScoped { atomic.AddInt64(&created, 1); return &sScoped{} })
 	var counter int64
+	var lastCtx atomic.Value
+	coll.AddScoped(func(ctx context.Context) {
+		lastCtx.Store(&ctx)
+	})
 	coll.AddScoped(func(s *sScoped) error {
 		c := atomic.AddInt64(&counter, 1)
 		if failEvery > 0 && c%int64(failEvery) == 0 {
@@ -613,6 +619,10 @@ func cycles(n int, failEvery int) CycleReport {
 		sc, err := p.CreateScope(context.Background())
 		if err != nil {
 			rep.FailedCreate++
+			// the context derived for the scope that could not be created must not stay alive
+			if cp, ok := lastCtx.Load().(*context.Context); ok && (*cp).Err() == nil {
+				rep.CtxNotDone++
+			}
 			continue
 		}
 		v, _ := sc.Get(tS)
